@@ -199,3 +199,43 @@ let run_socket (f : string array) : string =
       results;
     Buffer.contents buf
 
+
+(* SI: the same line format as S; ops may also be  sl:<mms|none>:<mfs|none>:<au>  (set_config of the inbound limits,
+   ProtocolCfg.XSetLimits); run with ProtocolCfg.run_xops *)
+let xop_of_string (s : string) : xop =
+  match split ':' s with
+  | ["sl"; a; b; c] -> XSetLimits (opt_n a, opt_n b, (c = "1"))
+  | _ -> XOp (op_of_string s)
+
+let run_socket_x (f : string array) : string =
+  let role = if f.(2) = "s" then Server else Client in
+  let wbs = n_of_string f.(3) in
+  let max = if f.(4) = "inf" then u64_max else n_of_string f.(4) in
+  let cfg = { cfg_write_buffer_size = wbs; cfg_max_write_buffer_size = max;
+              cfg_max_message_size = opt_n f.(5); cfg_max_frame_size = opt_n f.(6);
+              cfg_accept_unmasked = (f.(7) = "1") } in
+  let seed = int_of_string f.(9) in
+  let pre = bytes_of_hex f.(10) in
+  let ops = List.map xop_of_string (list_of_field f.(11)) in
+  let rds = List.map rd_of_string (list_of_field f.(12)) in
+  let wrs = List.map wr_of_string (list_of_field f.(13)) in
+  let fls = List.map fl_of_string (list_of_field f.(14)) in
+  let keys = keys_of_seed seed (2 * List.length ops + 4) in
+  match ctx_new role pre cfg with
+  | None -> "panic:config"
+  | Some x ->
+    let w = { w_rds = rds; w_wrs = wrs; w_fls = fls; w_keys = keys; w_log = [] } in
+    let ((results, _x'), w') = run_xops x ops w in
+    let log = w'.w_log in
+    let buf = Buffer.create 256 in
+    let pos = ref 0 in
+    let rest = ref log in
+    List.iteri (fun i ((r, upto), _cfg) ->
+        let upto = int_of_n upto in
+        let evs = take_list (upto - !pos) !rest in
+        rest := drop_list (upto - !pos) !rest; pos := upto;
+        if i > 0 then Buffer.add_string buf " | ";
+        Buffer.add_string buf (op_result_s r);
+        List.iter (fun e -> match event_s e with Some s -> Buffer.add_char buf ' '; Buffer.add_string buf s | None -> ()) evs)
+      results;
+    Buffer.contents buf
